@@ -8,3 +8,55 @@ pub fn random_state_new_stub() -> std::hash::RandomState {
     let k: (u64, u64) = (kani::any(), kani::any());
     unsafe { core::mem::transmute::<(u64, u64), std::hash::RandomState>(k) }
 }
+
+/// Stand-in for `EvaluationDomain::new` (field-heavy: measured not to finish under CBMC even for
+/// concrete arguments). Only `k` is observable by the callers under test (`from_parts` asserts
+/// `k <= F::S`); the integer prefix of the real `new` is checked separately (h_domain.rs).
+/// Field-for-field mirror of `midnight_proofs::poly::EvaluationDomain` (same types, same order); the
+/// transmute is size-checked at compile time and every harness using it re-checks `k()` /
+/// `extended_k()` on the result.
+#[allow(dead_code)]
+pub struct DomainMirror<F> {
+    n: u64,
+    k: u32,
+    extended_k: u32,
+    omega: F,
+    omega_inv: F,
+    extended_omega: F,
+    extended_omega_inv: F,
+    g_coset: F,
+    g_coset_inv: F,
+    quotient_poly_degree: u64,
+    ifft_divisor: F,
+    extended_ifft_divisor: F,
+    t_evaluations: Vec<F>,
+    barycentric_weight: F,
+}
+pub static mut DOMAIN_NEW_CALLS: u32 = 0;
+pub static mut DOMAIN_NEW_K: u32 = 0;
+pub fn domain_new_stub<F: ff::WithSmallOrderMulGroup<3>>(j: u32, k: u32) -> midnight_proofs::poly::EvaluationDomain<F> {
+    unsafe {
+        DOMAIN_NEW_CALLS += 1;
+        DOMAIN_NEW_K = k;
+    }
+    let m = DomainMirror::<F> {
+        n: 1u64 << (k & 63),
+        k,
+        extended_k: k.wrapping_add(7),
+        omega: F::ONE,
+        omega_inv: F::ONE,
+        extended_omega: F::ONE,
+        extended_omega_inv: F::ONE,
+        g_coset: F::ONE,
+        g_coset_inv: F::ONE,
+        quotient_poly_degree: (j as u64).wrapping_sub(1),
+        ifft_divisor: F::ONE,
+        extended_ifft_divisor: F::ONE,
+        t_evaluations: Vec::new(),
+        barycentric_weight: F::ONE,
+    };
+    let d: midnight_proofs::poly::EvaluationDomain<F> = unsafe { core::mem::transmute_copy(&core::mem::ManuallyDrop::new(m)) };
+    assert!(core::mem::size_of::<DomainMirror<F>>() == core::mem::size_of::<midnight_proofs::poly::EvaluationDomain<F>>());
+    assert!(d.k() == k && d.extended_k() == k.wrapping_add(7), "DomainMirror layout self-check");
+    d
+}
